@@ -40,8 +40,22 @@ class FixedOffset(_dt.tzinfo):
         return hash(self._m)
 
 
+def _oid_of_value(n):
+    """the ObjectId whose underlying value is n (mongomock's stand-in wraps a 16-byte UUID,
+    bson.ObjectId holds 12 bytes)"""
+    for width in (32, 24):
+        try:
+            return ObjectId('%0*x' % (width, n))
+        except Exception:  # pylint: disable=broad-except
+            continue
+    raise ValueError('cannot build ObjectId %d' % n)
+
+
 class Oids(object):
-    """ObjectIds numbered by first appearance; numbers below FRESH are generator-made."""
+    """ObjectIds numbered by first appearance; numbers below FRESH are generator-made: number n is
+    the ObjectId of value n, so that generator-made ids are ordered like their numbers (the order
+    MongoModel/Bson.lean `oidCmp` gives them).  Numbers from FRESH on are ids the library
+    generated; their order is not modelled."""
     FRESH = 1000
 
     def __init__(self):
@@ -51,7 +65,7 @@ class Oids(object):
 
     def make(self, n):
         if n not in self.by_num:
-            o = ObjectId()
+            o = _oid_of_value(n)
             self.by_num[n] = o
             self.by_obj[o] = n
         return self.by_num[n]
